@@ -91,7 +91,7 @@ conf() {
     C08) Q=60   T=800 ;;
     C09) Q=50   T=600 ;;
     C10) Q=30   T=400 ;;
-    C11) Q=2    T=20 ;;
+    C11) Q=6    T=150 ;;
     C12) Q=100  T=1200 ;;
     C13) Q=250  T=4000 ;;
     C14) Q=12   T=150 ;;
